@@ -42,8 +42,13 @@ type Req struct {
 
 const asset = "USD"
 
-func real(a string) string  { return strings.ToLower(a) }
-func model(a string) string { if a == "world" { return a }; return strings.ToUpper(a) }
+func real(a string) string { return strings.ToLower(a) }
+func model(a string) string {
+	if a == "world" {
+		return a
+	}
+	return strings.ToUpper(a)
+}
 
 // script renders the postings of a create request as Numscript, naming the
 // sources as literals, as variables, or through account metadata.
@@ -72,6 +77,16 @@ func script(r Req, p string) ledger.RunScript {
 		src := srcExpr(i, po.Src)
 		if r.Od && po.Src != "world" {
 			src += " allowing unbounded overdraft"
+		}
+		if po.Src != "world" {
+			switch r.Mode {
+			case "allot": // the account is named only inside a portioned source
+				src = fmt.Sprintf("{\n\t\t1/2 from %s\n\t\tremaining from %s\n\t}", src, src)
+			case "max": // ... only under a cap
+				src = fmt.Sprintf("max [%s %d] from %s", asset, po.Amt, src)
+			case "seq": // ... only inside an ordered list
+				src = fmt.Sprintf("{\n\t\t%s\n\t}", src)
+			}
 		}
 		fmt.Fprintf(&body, "send [%s %d] (\n\tsource = %s\n\tdestination = @%s\n)\n", asset, po.Amt, src, real(po.Dst))
 	}
@@ -119,6 +134,10 @@ func classify(err error) string {
 		return "missing-metadata"
 	case strings.Contains(err.Error(), "already taken"):
 		return "ik-taken"
+	case strings.Contains(err.Error(), "locking accounts"):
+		return "lock-cancelled"
+	case errors.Is(err, context.Canceled):
+		return "cancelled"
 	}
 	return "other:" + err.Error()
 }
